@@ -793,43 +793,13 @@ theorem clean_iff_node (c : Cfg) (hc : Positional c) : ∀ (l : Node), CleanIffA
     | map b fs => simp only [diffBetween, dataEq]; exact purge_strict_not_clean ..
     | set b ns => simp only [diffBetween, dataEq]; exact purge_strict_not_clean ..
 
-/-- **Under positional comparison the strict report is clean exactly when the two documents are
-equal as data** (`dataEq`; under positional comparison: Python `==` on every compared pair). -/
-theorem diff_clean_iff_dataEq_strict_partial (c : Cfg) (hc : Positional c) (l r : Node)
-    (hl : wf l = true) (hr : wf r = true) : clean (diff true c l r) = true ↔ dataEq c l r = true := by
-  unfold diff
-  rw [clean_iff_node c hc l r [] hl hr]
-
-/- FULL STATEMENT (not proved in this generality):
-     theorem diff_clean_iff_dataEq (c : Cfg) (l r : Node) (hl : wf l) (hr : wf r)
-         (hu : UniqueIdentityKeys c l r)   -- only for c.aoh ∈ {key, deep}: every synchronised record
-                                           -- carries the identity key, with a scalar value, pairwise different
-         (hv : report c l r = diff true c l r) :
-         clean (report c l r) = true ↔ dataEq c l r = true
-   for every array mode and AoH mode.  PROVED below: the positional modes (`Positional c`).
-   MISSING for the synchronised modes (value / key / deep): (1) Python `==` (`eqv`) is symmetric and
-   transitive on well-formed documents, (2) the greedy first-match pairing of `syncLoop` finds a
-   perfect matching whenever one exists for an equivalence (`msEq_iff_perm`), (3) under unique
-   identity keys the pairing by identity value and the pairing by `==` coincide.  For those modes
-   what is proved is `diff_refl` (identical documents: clean, all modes), `sync_accounting` and the
-   two `…_report_follows_sync` theorems; the equivalence itself is checked on the real code by the
-   direct check `clean <=> data-equal` of the harness against an independent Python oracle. -/
-
-/-- **The report of the code is clean exactly when the documents are equal as data**, on every
-pair of documents outside the class of finding C06-K1 (`report c l r = diff true c l r`: no null /
-empty container is compared with a node of another kind — a decidable condition). -/
-theorem diff_clean_iff_dataEq_partial (c : Cfg) (hc : Positional c) (l r : Node)
-    (hl : wf l = true) (hr : wf r = true) (hv : report c l r = diff true c l r) :
-    clean (report c l r) = true ↔ dataEq c l r = true := by
-  rw [hv]; exact diff_clean_iff_dataEq_strict_partial c hc l r hl hr
-
 /-- finding C06-K1 on the model: `{}` against `[]` gives an empty (hence clean) report -/
 example : clean (report ⟨.position, .position⟩ (.map none []) (.seq none [])) = true
     ∧ dataEq ⟨.position, .position⟩ (.map none []) (.seq none []) = false
     ∧ report ⟨.position, .position⟩ (.map none []) (.seq none []) ≠ diff true ⟨.position, .position⟩ (.map none []) (.seq none []) := by
   decide +kernel
 
-/-- the hypothesis of `diff_clean_iff_dataEq_partial` is met by documents with nulls and empty containers -/
+/-- the hypothesis `report c l r = diff true c l r` of the `…_partial` theorems is met by documents with nulls and empty containers -/
 example : report ⟨.position, .position⟩ (.seq none [.scalar none .null, .seq none []]) (.seq none [.scalar none .null, .seq none [], .map none []])
     = diff true ⟨.position, .position⟩ (.seq none [.scalar none .null, .seq none []]) (.seq none [.scalar none .null, .seq none [], .map none []]) := by
   decide +kernel
@@ -1182,5 +1152,369 @@ theorem diff_complete_partial (c : Cfg) (hc : Positional c) (l r : Node) (hl : w
 /-- finding C06-K1 on the model: `null` against `[1]` — the left leaf (the root) has no entry -/
 example : report ⟨.position, .position⟩ (.scalar none .null) (.seq none [.scalar none (.int 1)])
     = [mkAdd [.idx 0] (.scalar none (.int 1))] := by decide +kernel
+
+/-! ## documents that are equal under Python `==` give a clean report (no identity-key modes) -/
+
+/-- no identity-key synchronisation -/
+def NoKeySync (c : Cfg) : Prop := c.aoh ≠ .key ∧ c.aoh ≠ .deep
+
+instance (c : Cfg) : Decidable (NoKeySync c) := by unfold NoKeySync; exact inferInstance
+
+theorem listMode_nokey {c : Cfg} (hc : NoKeySync c) (xs ys : List Node) :
+    listMode c xs ys = .nothing ∨ listMode c xs ys = .posShallow ∨ listMode c xs ys = .posDeep ∨ listMode c xs ys = .value := by
+  obtain ⟨arr, aoh⟩ := c
+  obtain ⟨h1, h2⟩ := hc
+  simp only at h1 h2
+  unfold listMode
+  cases ys with
+  | nil =>
+    cases xs with
+    | nil => simp
+    | cons x xs => cases aoh <;> cases arr <;> cases hx : isMap x <;> simp_all
+  | cons y ys => cases aoh <;> cases arr <;> cases hy : isMap y <;> simp_all
+
+theorem clean_flatMap {α : Type} (f : α → List Entry) : ∀ (ps : List α),
+    clean (ps.flatMap f) = ps.all (fun p => clean (f p)) := by
+  intro ps
+  induction ps with
+  | nil => rfl
+  | cons p ps ih => simp [List.flatMap_cons, ih]
+
+/-- the induction hypothesis handed to the list lemmas -/
+def CleanOfEqvAt (s : Bool) (c : Cfg) (x : Node) : Prop :=
+  ∀ y q, wf x = true → wf y = true → eqv y x = true → clean (diffBetween s c q x y) = true
+
+theorem eqvClean_pos (s : Bool) (c : Cfg) (q : Addr) : ∀ (xs ys : List Node) (i : Nat),
+    (∀ x ∈ xs, CleanOfEqvAt s c x) → (∀ x ∈ xs, wf x = true) → (∀ y ∈ ys, wf y = true) →
+    eqvList ys xs = true → clean (diffPos s c q i xs ys) = true := by
+  intro xs
+  induction xs with
+  | nil => intro ys i _ _ _ h; cases ys <;> simp_all [eqvList, diffPos, addSeq]
+  | cons x xs ih =>
+    intro ys i hih hwx hwy h
+    cases ys with
+    | nil => simp [eqvList] at h
+    | cons y ys =>
+      simp only [eqvList, Bool.and_eq_true] at h
+      simp only [diffPos, clean_append, Bool.and_eq_true]
+      exact ⟨hih x (List.mem_cons_self ..) y _ (hwx x (List.mem_cons_self ..)) (hwy y (List.mem_cons_self ..)) h.1,
+        ih ys (i + 1) (fun u hu => hih u (List.mem_cons_of_mem _ hu)) (fun u hu => hwx u (List.mem_cons_of_mem _ hu))
+          (fun u hu => hwy u (List.mem_cons_of_mem _ hu)) h.2⟩
+
+theorem eqvClean_value (s : Bool) (c : Cfg) (q : Addr) (xs ys : List Node)
+    (hih : ∀ x ∈ xs, CleanOfEqvAt s c x) (hwx : ∀ x ∈ xs, wf x = true) (hwy : ∀ y ∈ ys, wf y = true)
+    (hb : Balanced xs ys) :
+    clean (diffValue s c q 0 xs (enumFrom 0 ys)).1 = true ∧ (diffValue s c q 0 xs (enumFrom 0 ys)).2 = [] := by
+  obtain ⟨h1, h2⟩ := value_report_follows_sync s c q xs 0 (enumFrom 0 ys)
+  have hwr : ∀ y ∈ enumFrom 0 ys, wf y.2 = true := fun y hy => hwy y.2 (mem_enumFrom hy)
+  have hall := syncLoop_balanced xs 0 (enumFrom 0 ys) hwx hwr (by rw [enumFrom_snd]; exact hb)
+  constructor
+  · rw [h1, clean_flatMap, List.all_eq_true]
+    intro p hp
+    obtain ⟨a, b, rfl, ha, hbm, he⟩ := hall p hp
+    simp only [valuePairEntries]
+    exact hih a.2 ha b.2 _ (hwx a.2 ha) (hwr b hbm) he
+  · rw [h2, List.filterMap_eq_nil_iff]
+    intro p hp
+    obtain ⟨a, b, rfl, _, _, _⟩ := hall p hp
+    rfl
+
+theorem eqvClean_shallow (q : Addr) : ∀ (xs ys : List Node) (i : Nat),
+    (∀ x ∈ xs, wf x = true) → (∀ y ∈ ys, wf y = true) → eqvList ys xs = true → clean (posShallow q i xs ys) = true := by
+  intro xs ys i hwx hwy h
+  rw [clean_shallow]
+  have hsymm : ∀ (ys xs : List Node), (∀ y ∈ ys, wf y = true) → (∀ x ∈ xs, wf x = true) → eqvList ys xs = true → eqvList xs ys = true :=
+    fun ys xs hy hx h => eqvList_symm ys xs (fun y _ r h1 h2 h3 => eqv_symm y r h1 h2 h3) hy hx h
+  exact hsymm ys xs hwy hwx h
+
+theorem eqvClean_dict (s : Bool) (c : Cfg) (q : Addr) (fs : List (Key × Node)) :
+    ∀ (es : List (Key × Node)),
+    (∀ kv ∈ es, ∃ w, fs.lookup kv.1 = some w ∧ wf w = true ∧ eqv w kv.2 = true) →
+    (∀ kv ∈ es, CleanOfEqvAt s c kv.2) → (∀ kv ∈ es, wf kv.2 = true) →
+    clean (diffDict s c q es fs) = true := by
+  intro es
+  induction es with
+  | nil => intro _ _ _; simp [diffDict]
+  | cons e es ih =>
+    obtain ⟨k, v⟩ := e
+    intro hl hih hw
+    obtain ⟨w, hw1, hw2, hw3⟩ := hl (k, v) (List.mem_cons_self ..)
+    simp only at hw1 hw3
+    simp only [diffDict, hw1, clean_append, Bool.and_eq_true]
+    exact ⟨hih (k, v) (List.mem_cons_self ..) w _ (hw (k, v) (List.mem_cons_self ..)) hw2 hw3,
+      ih (fun kv h => hl kv (List.mem_cons_of_mem _ h)) (fun kv h => hih kv (List.mem_cons_of_mem _ h))
+        (fun kv h => hw kv (List.mem_cons_of_mem _ h))⟩
+
+theorem clean_of_eqv_node (s : Bool) (c : Cfg) (hc : NoKeySync c) : ∀ (x : Node), CleanOfEqvAt s c x := by
+  intro x
+  induction x using nodeInduct with
+  | hscalar a v =>
+    intro y q hx hy h
+    cases y with
+    | scalar b w =>
+      have := eqv_symm _ _ hy hx h
+      simp [diffBetween, scalarEntry, this]
+    | seq b ys => simp [eqv] at h
+    | map b fs => simp [eqv] at h
+    | set b ns => simp [eqv] at h
+  | hset a ms =>
+    intro y q hx hy h
+    cases y with
+    | set b ns =>
+      simp only [diffBetween]
+      rw [clean_set]
+      simp only [eqv, Bool.and_eq_true] at h ⊢
+      exact ⟨h.2, h.1⟩
+    | scalar b w => simp [eqv] at h
+    | seq b ys => simp [eqv] at h
+    | map b fs => simp [eqv] at h
+  | hmap a es ih =>
+    intro y q hx hy h
+    cases y with
+    | map b fs =>
+      obtain ⟨hd, hv⟩ := wf_map hx
+      obtain ⟨hd', hv'⟩ := wf_map hy
+      simp only [eqv, Bool.and_eq_true, List.all_eq_true] at h
+      obtain ⟨h1, h2⟩ := h
+      rw [eqvEntries_iff] at h1
+      simp only [diffBetween, clean_append, Bool.and_eq_true]
+      constructor
+      · refine eqvClean_dict s c q fs es ?_ ih hv
+        intro kv hkv
+        obtain ⟨w, hkw⟩ := mem_of_hasKey' (h2 kv hkv)
+        obtain ⟨v', hv1, hv2⟩ := h1 (kv.1, w) hkw
+        have : v' = kv.2 := by
+          have := lookup_of_mem hd kv hkv
+          simp only at hv1
+          rw [hv1] at this; exact Option.some.inj this
+        subst this
+        exact ⟨w, lookup_of_mem hd' (kv.1, w) hkw, hv' _ hkw, hv2⟩
+      · rw [clean_adds, List.all_eq_true]
+        intro kw hkw
+        obtain ⟨v, hv1, _⟩ := h1 kw hkw
+        exact hasKey_of_lookup hv1
+    | scalar b w => simp [eqv] at h
+    | seq b ys => simp [eqv] at h
+    | set b ns => simp [eqv] at h
+  | hseq a xs ih =>
+    intro y q hx hy h
+    cases y with
+    | seq b ys =>
+      have hwx := wf_seq_mem hx
+      have hwy := wf_seq_mem hy
+      simp only [eqv] at h
+      simp only [diffBetween]
+      rcases listMode_nokey hc xs ys with hm | hm | hm | hm
+      · rw [hm]; rfl
+      · rw [hm]; exact eqvClean_shallow q xs ys 0 hwx hwy h
+      · rw [hm]; exact eqvClean_pos s c q xs ys 0 ih hwx hwy h
+      · rw [hm]
+        obtain ⟨h1, h2⟩ := eqvClean_value s c q xs ys ih hwx hwy (balanced_of_eqvList xs ys hwx hwy h)
+        simp only [h2, mergeAdds]
+        exact h1
+    | scalar b w => simp [eqv] at h
+    | map b fs => simp [eqv] at h
+    | set b ns => simp [eqv] at h
+
+/-- **Documents that are equal under Python `==` give a clean report** in every array mode and the
+AoH modes `position`, `dpos`, `value` (for the code and for the strict variant): under value
+synchronisation the greedy first-match pairing leaves no element unpaired, because `==` is an
+equivalence on well-formed documents (`eqv_symm`, `eqv_trans`, `syncLoop_balanced`). -/
+theorem diff_clean_of_eqv (s : Bool) (c : Cfg) (hc : NoKeySync c) (l r : Node)
+    (hl : wf l = true) (hr : wf r = true) (h : eqv r l = true) : clean (diff s c l r) = true :=
+  clean_of_eqv_node s c hc l r [] hl hr h
+
+/-! ## clean ⇔ equal as data under value synchronisation -/
+
+theorem removeFirstNode_map (f : Node → Bool) : ∀ (rem : List (Nat × Node)),
+    removeFirstNode f (rem.map (fun p => p.2)) = (removeFirst f rem).map (fun r => r.2.map (fun p => p.2)) := by
+  intro rem
+  induction rem with
+  | nil => rfl
+  | cons y ys ih =>
+    simp only [List.map_cons, removeFirstNode, removeFirst]
+    cases hf : f y.2 with
+    | true => simp
+    | false =>
+      simp only [Bool.false_eq_true, if_false, ih]
+      cases removeFirst f ys with
+      | none => rfl
+      | some r => rfl
+
+theorem popLast_perm {f : Entry → Bool} : ∀ {es : List Entry} {d : Entry} {es' : List Entry},
+    popLast f es = some (d, es') → f d = true ∧ es.Perm (d :: es') := by
+  intro es
+  induction es with
+  | nil => intro d es' h; simp [popLast] at h
+  | cons e es ih =>
+    intro d es' h
+    unfold popLast at h
+    cases hp : popLast f es with
+    | some r =>
+      obtain ⟨d0, es0⟩ := r
+      rw [hp] at h
+      simp only [Option.some.injEq, Prod.mk.injEq] at h
+      obtain ⟨rfl, rfl⟩ := h
+      obtain ⟨h1, h2⟩ := ih hp
+      exact ⟨h1, (List.Perm.cons e h2).trans (List.Perm.swap _ _ _)⟩
+    | none =>
+      rw [hp] at h
+      simp only at h
+      split at h
+      · simp only [Option.some.injEq, Prod.mk.injEq] at h
+        obtain ⟨rfl, rfl⟩ := h
+        exact ⟨by assumption, List.Perm.refl _⟩
+      · cases h
+
+/-- an ADD or CHANGE entry is present -/
+def HasNew (acc : List Entry) : Prop := ∃ e ∈ acc, e.action = .add ∨ e.action = .change
+
+theorem HasNew.not_clean {acc : List Entry} (h : HasNew acc) : clean acc = false := by
+  obtain ⟨e, he, ha⟩ := h
+  cases hc : clean acc with
+  | false => rfl
+  | true =>
+    simp only [clean, List.all_eq_true] at hc
+    have := hc e he
+    cases ha with
+    | inl ha => rw [ha] at this; cases this
+    | inr ha => rw [ha] at this; cases this
+
+theorem addOrChange_hasNew (acc : List Entry) (q : Addr) (y : Node) : HasNew (addOrChange acc q y) := by
+  unfold addOrChange
+  split
+  · exact ⟨_, List.mem_append_right _ (List.mem_singleton.mpr rfl), Or.inr rfl⟩
+  · exact ⟨_, List.mem_append_right _ (List.mem_singleton.mpr rfl), Or.inl rfl⟩
+
+theorem addOrChange_keeps (acc : List Entry) (q : Addr) (y : Node) (_h : HasNew acc) : HasNew (addOrChange acc q y) :=
+  addOrChange_hasNew acc q y
+
+theorem mergeAdds_hasNew (p : Addr) : ∀ (adds : List (Nat × Node)) (acc : List Entry), HasNew acc → HasNew (mergeAdds p acc adds) := by
+  intro adds
+  induction adds with
+  | nil => intro acc h; exact h
+  | cons a adds ih =>
+    obtain ⟨j, y⟩ := a
+    intro acc _
+    exact ih _ (addOrChange_hasNew acc _ y)
+
+theorem clean_mergeAdds (p : Addr) (acc : List Entry) (adds : List (Nat × Node)) :
+    clean (mergeAdds p acc adds) = (clean acc && adds.isEmpty) := by
+  cases adds with
+  | nil => simp [mergeAdds]
+  | cons a adds =>
+    obtain ⟨j, y⟩ := a
+    simp only [mergeAdds, List.isEmpty_cons, Bool.and_false]
+    exact (mergeAdds_hasNew p adds _ (addOrChange_hasNew acc _ y)).not_clean
+
+/-- lockstep: the value-synchronised loop pairs everything and all pair diffs are clean exactly when
+the greedy multiset comparison of the specification succeeds -/
+theorem clean_value (c : Cfg) (hc : NoKeySync c) (q : Addr) : ∀ (xs : List Node) (i : Nat) (rem : List (Nat × Node)),
+    (∀ x ∈ xs, wf x = true) → (∀ y ∈ rem, wf y.2 = true) →
+    (clean (diffValue true c q i xs rem).1 && (diffValue true c q i xs rem).2.isEmpty)
+      = msEq (fun x y => eqv y x) xs (rem.map (fun p => p.2)) := by
+  intro xs
+  induction xs with
+  | nil => intro i rem _ _; cases rem <;> simp [diffValue, msEq]
+  | cons x xs ih =>
+    intro i rem hwx hwr
+    simp only [diffValue, msEq, removeFirstNode_map]
+    cases hrf : removeFirst (fun y => eqv y x) rem with
+    | none => simp [mkDel]
+    | some r =>
+      obtain ⟨y, rem'⟩ := r
+      obtain ⟨hperm, hfy⟩ := removeFirst_perm hrf
+      have hyr : y ∈ rem := hperm.symm.subset (List.mem_cons_self ..)
+      have hsub : ∀ z ∈ rem', z ∈ rem := fun z hz => hperm.symm.subset (List.mem_cons_of_mem _ hz)
+      simp only [Option.map_some, clean_append]
+      rw [clean_of_eqv_node true c hc x y.2 _ (hwx x (List.mem_cons_self ..)) (hwr y hyr) hfy, Bool.true_and]
+      exact ih (i + 1) rem' (fun u hu => hwx u (List.mem_cons_of_mem _ hu)) (fun z hz => hwr z (hsub z hz))
+
+theorem positional_nokey {c : Cfg} (hc : Positional c) : NoKeySync c := by
+  obtain ⟨_, h | h⟩ := hc <;> (rw [NoKeySync, h]; exact ⟨by decide, by decide⟩)
+
+theorem clean_iff_nokey_node (c : Cfg) (hc : NoKeySync c) : ∀ (l : Node), CleanIffAt c l := by
+  intro l
+  induction l using nodeInduct with
+  | hscalar a v =>
+    intro r q hl hr
+    cases r with
+    | scalar b w =>
+      simp only [diffBetween, dataEq, clean_cons, scalarEntry, eqv, clean_nil, Bool.and_true]
+      exact ite_same _
+    | seq b ys => simp only [diffBetween, dataEq]; exact purge_strict_not_clean ..
+    | map b fs => simp only [diffBetween, dataEq]; exact purge_strict_not_clean ..
+    | set b ns => simp only [diffBetween, dataEq]; exact purge_strict_not_clean ..
+  | hset a ms =>
+    intro r q hl hr
+    cases r with
+    | set b ns => simp only [diffBetween, dataEq]; exact clean_set q ms ns
+    | scalar b w => simp only [diffBetween, dataEq]; exact purge_strict_not_clean ..
+    | seq b ys => simp only [diffBetween, dataEq]; exact purge_strict_not_clean ..
+    | map b fs => simp only [diffBetween, dataEq]; exact purge_strict_not_clean ..
+  | hmap a es ih =>
+    intro r q hl hr
+    cases r with
+    | map b fs =>
+      simp only [diffBetween, dataEq, clean_append]
+      rw [clean_dict c q fs (wf_map hr).2 es ih (wf_map hl).2, clean_adds]
+    | scalar b w => simp only [diffBetween, dataEq]; exact purge_strict_not_clean ..
+    | seq b ys => simp only [diffBetween, dataEq]; exact purge_strict_not_clean ..
+    | set b ns => simp only [diffBetween, dataEq]; exact purge_strict_not_clean ..
+  | hseq a xs ih =>
+    intro r q hl hr
+    cases r with
+    | seq b ys =>
+      simp only [diffBetween, dataEq]
+      rcases listMode_nokey hc xs ys with hm | hm | hm | hm
+      · rw [hm]; rfl
+      · rw [hm]; exact clean_shallow q xs ys 0
+      · rw [hm]; exact clean_pos c q xs ys 0 ih (wf_seq_mem hl) (wf_seq_mem hr)
+      · rw [hm]
+        simp only [clean_mergeAdds]
+        have := clean_value c hc q xs 0 (enumFrom 0 ys) (wf_seq_mem hl) (fun y hy => wf_seq_mem hr y.2 (mem_enumFrom hy))
+        rw [enumFrom_snd] at this
+        exact this
+    | scalar b w => simp only [diffBetween, dataEq]; exact purge_strict_not_clean ..
+    | map b fs => simp only [diffBetween, dataEq]; exact purge_strict_not_clean ..
+    | set b ns => simp only [diffBetween, dataEq]; exact purge_strict_not_clean ..
+
+/-- **The strict report is clean exactly when the two documents are equal as data** (`dataEq`), in
+every array mode and the AoH modes `position`, `dpos` and `value`: position by position, or — under
+value synchronisation — as multisets of `==`-equal elements (`msEq_iff_balanced`). -/
+theorem diff_clean_iff_dataEq_strict (c : Cfg) (hc : NoKeySync c) (l r : Node)
+    (hl : wf l = true) (hr : wf r = true) : clean (diff true c l r) = true ↔ dataEq c l r = true := by
+  unfold diff
+  rw [clean_iff_nokey_node c hc l r [] hl hr]
+
+/- FULL STATEMENT (not proved in this generality):
+     theorem diff_clean_iff_dataEq (c : Cfg) (l r : Node) (hl : wf l) (hr : wf r)
+         (hu : UniqueIdentityKeys c l r)   -- only for c.aoh ∈ {key, deep}
+         (hv : report c l r = diff true c l r) :
+         clean (report c l r) = true ↔ dataEq c l r = true
+   for every array mode and AoH mode.  PROVED: all array modes × the AoH modes position / dpos /
+   value (`diff_clean_iff_dataEq_partial`), and one list level of the identity-key mode `key`
+   (`key_clean_iff_msEq`).  MISSING: the document-level statement for `key` and `deep` (threading
+   the identity hypothesis through the recursion; for `deep` the pairing by identity value has to be
+   related to the recursive `dataEqMs`).  For those two modes the document-level facts proved are
+   `diff_refl`, `sync_accounting` and `key_report_follows_sync`; the equivalence is checked on the real
+   code by the harness against an independent Python oracle. -/
+
+/-- (`_partial`: AoH modes `key`/`deep` not covered; the class of finding C06-K1 is excluded by the
+decidable hypothesis `hv`.)  **The report of the code is clean exactly when the documents are
+equal as data.** -/
+theorem diff_clean_iff_dataEq_partial (c : Cfg) (hc : NoKeySync c) (l r : Node)
+    (hl : wf l = true) (hr : wf r = true) (hv : report c l r = diff true c l r) :
+    clean (report c l r) = true ↔ dataEq c l r = true := by
+  rw [hv]; exact diff_clean_iff_dataEq_strict c hc l r hl hr
+
+example : NoKeySync ⟨.value, .value⟩ := by decide
+
+/-- value synchronisation: `[1, 2, 2]` and `[2, 1, 2]` are equal as data, `[1, 2, 2]` and `[1, 1, 2]` are not -/
+example : dataEq ⟨.value, .position⟩ (.seq none [.scalar none (.int 1), .scalar none (.int 2), .scalar none (.int 2)])
+      (.seq none [.scalar none (.int 2), .scalar none (.int 1), .scalar none (.int 2)]) = true
+    ∧ dataEq ⟨.value, .position⟩ (.seq none [.scalar none (.int 1), .scalar none (.int 2), .scalar none (.int 2)])
+      (.seq none [.scalar none (.int 1), .scalar none (.int 1), .scalar none (.int 2)]) = false := by
+  decide +kernel
 
 end Ypv.C06
